@@ -18,7 +18,6 @@ const SIG_JSON_NONFINITE: &str = "C18/json-nonfinite-float-becomes-null";
 const SIG_BIN_TYPE_UNLOADABLE: &str = "C18/binary-type-not-reloadable";
 const SIG_BIN_TYPE_LOSSY: &str = "C18/binary-type-lossy";
 const SIG_JSON_TYPE_LOSSY: &str = "C18/json-type-lossy";
-const SIG_PREFIX_LOST: &str = "C18/index-prefix-length-lost";
 
 fn real_write(v: &V) -> Vec<u8> {
     let mut buf = vec![];
@@ -226,8 +225,7 @@ fn compare_dbs(orig: &mut Db, loaded: &mut Db, fmt: Fmt, rep: &mut Report) -> Ve
         let pa: Vec<_> = a.columns.iter().map(|c| c.prefix_length).collect();
         let pb: Vec<_> = b.columns.iter().map(|c| c.prefix_length).collect();
         if pa != pb {
-            let sig = if pb.iter().all(|p| p.is_none()) { Some(SIG_PREFIX_LOST) } else { None };
-            d.push(Diff { what: "index prefix length differs".into(), detail: format!("{:?} vs {:?}", a, b), sig });
+            d.push(Diff { what: "index prefix length differs".into(), detail: format!("{:?} vs {:?}", a, b), sig: None });
         }
     }
     if d.iter().any(|x| x.what.starts_with("row") || x.what.starts_with("column")) {
@@ -246,9 +244,6 @@ fn compare_dbs(orig: &mut Db, loaded: &mut Db, fmt: Fmt, rep: &mut Report) -> Ve
     }
     for ix in &i1 {
         let meta = orig.db.get_index(ix).unwrap().clone();
-        if meta.columns.iter().any(|c| c.prefix_length.is_some()) {
-            continue; // the definition difference is already reported (prefix length is not stored)
-        }
         let t = meta.table_name.clone();
         let Some(tab) = orig.db.get_table(&t) else { continue };
         let c = meta.columns[0].column_name.clone();
